@@ -1742,6 +1742,10 @@ fn catalogue_part2(v: &mut Vec<Entry>) {
             .bad(&["-o", "c"], "malformed-ambiguous")
             .bad(&["++no"], "malformed-ambiguous")
             .bad(&["-e", "--p", "a"], "malformed-ambiguous")
+            // two different signs at the start of one argument name no option
+            .bad(&["-+x"], "malformed-unknown-short")
+            .bad(&["+-e"], "malformed-unknown-short")
+            .bad(&["-e", "+-u", "foo"], "malformed-unknown-short")
     };
     let sp = "set -- p q";
     v.push(set_bad(e("set").setup(sp).set(&[("errexit", true)], &[])));
